@@ -152,7 +152,11 @@ class OptionalCoercerProvider(NormTypeCoercerProvider):
         return norm.origin == Union and None in [case.origin for case in norm.args]
 
     def _get_not_none(self, norm: BaseNormType) -> BaseNormType:
-        return next(case for case in norm.args if case.origin is not None)
+        cases = [case for case in norm.args if case.origin is not None]
+        if len(cases) == 1:
+            return cases[0]
+        # Optional[Union[A, B]] is Union[A, B, None], so wrapped type is union of all other cases
+        return normalize_type(Union[tuple(case.source for case in cases)])
 
 
 class TypeHintTagsUnwrappingProvider(CoercerProvider):
